@@ -41,6 +41,30 @@ impl LeanDriver {
     }
 }
 
+impl LeanDriver {
+    /// Pipelined form of `ask`: send all lines, then read one answer per line. Keep the batch small
+    /// (tens of lines) so that neither pipe fills up while the other side is still writing.
+    pub fn ask_many(&mut self, lines: &[String]) -> anyhow::Result<Vec<String>> {
+        for l in lines {
+            debug_assert!(!l.contains('\n'));
+            self.stdin.write_all(l.as_bytes())?;
+            self.stdin.write_all(b"\n")?;
+        }
+        self.stdin.flush()?;
+        let mut outs = Vec::with_capacity(lines.len());
+        for l in lines {
+            let mut out = String::new();
+            let n = self.stdout.read_line(&mut out)?;
+            if n == 0 {
+                anyhow::bail!("lean driver closed its output after line: {}", l);
+            }
+            self.lines += 1;
+            outs.push(out.trim_end().to_string());
+        }
+        Ok(outs)
+    }
+}
+
 impl Drop for LeanDriver {
     fn drop(&mut self) {
         let _ = self.child.kill();
